@@ -265,6 +265,11 @@ pub fn chunk_len(count: u64) -> u64 {
 }
 
 fn prefix_len(count: u64, tier: Tier) -> u64 {
+    // the few-run batches are the expensive ones (seconds to minutes and gigabytes per run): two of their runs
+    // are repeated in the second process, not all of them
+    if count <= 16 {
+        return count.min(2);
+    }
     match tier {
         Tier::Quick => (count / 8).max(count.min(50)),
         Tier::Thorough => (count / 20).max(count.min(2000)),
